@@ -25,4 +25,8 @@ def run(rep, fb, tier):
     _l2.rule_dtype_case_methods(rep, fb)
     from ..rules import pyrules as _pr4
     _pr4.rule_py_defassign(rep)
+    _pr4.rule_py_isinstance_shadow(rep)
+    _pr4.rule_py_call_shape(rep)
+    from ..rules import lints as _lc
+    _lc.rule_contiguous_guard(rep, fb)
     rep.units = fb.units
